@@ -14,7 +14,7 @@ RULE = ("random histories (depth 10..30) of traffic events (payloads arriving on
         "line (status-derived attributes against the STATUS byte actually shifted out, A2). "
         "Non-trivial: a non-empty FIFO or latched flag was visited; distinct = distinct "
         "(mode, op history with lengths/pipes).")
-RULE += (" Later rounds added: pipe/irq_dr straight after read() must equal the radio's STATUS; the retry configuration changed after a transmission.")
+RULE += (" Later rounds added: pipe/irq_dr straight after read() must equal the radio's STATUS; the retry configuration changed after a transmission. The role / power getters read here and there between the other calls.")
 REQUIRED = {"read_leaves_fresh_status": 100, "status_attrs": 3000, "available": 300, "any": 300, "fifo": 1000, "read": 300,
             "clear_flags": 200, "flush": 200, "last_tx_arc": 100, "irq_line": 3000}
 BUDGET = {"quick": 480, "thorough": 900}
@@ -60,6 +60,10 @@ def gen_cases(ctx, kind="full"):
                     ["fifo", 1, True], ["fifo", 1, False], ["read"], ["read"], ["read_n"],
                     ["clear", rng.randrange(2), rng.randrange(2), rng.randrange(2)],
                     ["flush_rx"], ["flush_tx"], ["last_tx_arc"]]))
+        # the application asks the driver what role / power state it is in, here and there
+        for q in range(len(case["ops"]), -1, -1):
+            if (q * 5 + case["seed"]) % 7 == 0:
+                case["ops"].insert(q, ["role_query"])
         yield case
 
 
@@ -244,6 +248,10 @@ def _run(ctx, case, rig, rd, rp, dut, peer, prefix, kind):
                 return
             dynmask = (dynmask | 1) if kind == "full" else 0x3F
             continue
+        if name == "role_query":
+            (getattr(dut, "power", None), dut.listen)
+            if not check_irq("reading power/listen"):
+                return
         if name == "irqcfg":
             dut.interrupt_config(bool(op[1]), bool(op[2]), bool(op[3]))
             mask = [bool(op[1]), bool(op[2]), bool(op[3])]
